@@ -89,7 +89,12 @@ def run(ctx, p):
             sub(probe)
         elif arrangement == "unsub":
             unsub(probe)
+        state_arr = ("once", "twice", "unsub")[ctx.choice("state_arrangement", 3)] if kind in ("ac", "timer") else "once"
         ac0.subscribe_ac_state(probe_state)
+        if state_arr == "twice":
+            ac0.subscribe_ac_state(probe_state)
+        elif state_arr == "unsub":
+            ac0.unsubscribe_ac_state(probe_state)
         if kind == "zone":
             ac0.subscribe(probe_gen)
         ac1.subscribe(other_ac)
@@ -191,7 +196,10 @@ def run(ctx, p):
             ctx.check(names.count(main) <= (2 if kind == "error" else 1), "double_subscribe_once", detail=dict(detail, calls=calls))
             ctx.check(all(c[1] == ident for c in calls if c[0] in (main, "raiser")), "right_identifier", detail=dict(detail, calls=calls))
             if kind in ("ac", "timer", "error", "error_silent"):
-                ctx.check("ac_state" in names and "other_ac" not in names, "change_notifies", detail=dict(detail, calls=calls, why="AC-state subscriber / other AC"))
+                exp_state = 0 if state_arr == "unsub" else 1
+                ok_state = (names.count("ac_state") == exp_state) if kind in ("ac", "timer") else ("ac_state" in names)
+                ctx.check(ok_state and "other_ac" not in names, "change_notifies" if exp_state else "unsubscribe_stops",
+                          detail=dict(detail, calls=calls, state_arrangement=state_arr, why="AC-state subscriber / other AC"))
             if kind == "zone":
                 ctx.check("ac_general" in names and "ac_state" not in names and "other_ac" not in names and all(c[1] == 0 for c in calls),
                           "zone_reaches_ac_general_only", detail=dict(detail, calls=calls))
